@@ -60,12 +60,13 @@ struct Step {
   const std::string *data = nullptr;  // bytes written (WRITE) or read (READ); valid during after_step
   std::string datacopy;
   bool injected = false;              // result was an injected fault
+  int sigraised = 0;                  // ALT_SIGNAL: this signal was made pending before the call (the call itself has not run yet)
 };
 
 struct World;
 static inline std::string opname(int op);
 
-enum AltType { ALT_NONE = 0, ALT_FAIL, ALT_SHORT, ALT_KILL, ALT_MACHINE_CRASH, ALT_READDIR_LATE, ALT_EINTR };
+enum AltType { ALT_NONE = 0, ALT_FAIL, ALT_SHORT, ALT_KILL, ALT_MACHINE_CRASH, ALT_READDIR_LATE, ALT_EINTR, ALT_SIGNAL };
 struct Alt { int kind; int type; int arg; };  // kind: budget kind (explore.hpp); type: AltType; arg: errno / short count
 
 struct Scenario {
